@@ -31,11 +31,13 @@ CONFIG.update(
                 "corresponding structured program init;require;execute over atomic|seq|while|if|{scoped} (run_is_structured_program); "
                 "lifecycle (pre-order inits once, then requires which cannot change state, then execution; failed init/require => "
                 "no exec event); block_order in all three phases; first_error_stops (trace is a prefix of the fault-free run's, the "
-                "error returned is the last event); loop_passes (iff-characterisation: condition re-initialised once, n passes, n+1 "
+                "error returned is the last event) and fault_is_returned (the first reached scripted fault of ANY event kind is "
+                "exactly the result and cuts the trace there; no fault reached => identical to the fault-free run); loop_passes (iff-characterisation: condition re-initialised once, n passes, n+1 "
                 "tests), loop_pass_count (n read off the script), loop_counter (+1 per completed pass; loops in scopes count on their "
                 "own counter: scope_keeps_counters, via a verified static analysis); branch_sem; scope_fresh_each_entry; "
                 "scope_discipline (depth kept on every outcome incl. errors); caller_state_kept; scope_locals_gone; shadow_restored; "
-                "outer_writes_persist (a scope that inserts nothing is transparent). The model is tied to /repo by building real "
+                "outer_writes_persist (per key, any body: a state the body never inserts is exported as the body last left it), "
+                "untouched_state_unchanged, last_write_wins, shadow_holds_once_established, scope_without_locals_is_transparent. The model is tied to /repo by building real "
                 "component trees with the real builder/constructors, reading the built tree back through the code's own Serialize, "
                 "running Configuration::run and diffing trace, result, scope depth and registry dump against the compiled model (K) "
                 "and against the structured-program semantics (O)."),
@@ -44,6 +46,8 @@ CONFIG.update(
                 "leaves do; eyre errors are abstracted to (leaf, phase) / missing counter. And/Or/Not are modelled as written "
                 "(every child evaluated, no short-circuit), so a change of their evaluation strategy shows up here as an order "
                 "deviation. Loops are bounded by a pass bound in the model; every theorem holds for every bound. "
-                "caller_state_kept states presence, not the value last written. Agreement with the code is checked on the generated "
+                "run_is_structured_program is a change of presentation (the program is compiled from the same tree), not an independent "
+                "oracle, so O coincides with K by that theorem. shadow_restored needs 'no set/remove of k in the body' or a shadow "
+                "established by init: a set_value executed before the shadowing insert reaches the caller by design. Agreement with the code is checked on the generated "
                 "cases only."),
 )
